@@ -314,7 +314,8 @@ def bounded_eval_repr(tier, seed):
             'cases': cases, 'failures': failures, 'label': 'bounded'}
 
 
-BOUNDED = [bounded_stepped_slices, bounded_eval_repr]
+from contracts import extra as _extra2
+BOUNDED = [bounded_stepped_slices, bounded_eval_repr, _extra2.bounded_path_composition]
 
 CANARIES = [
     {'name': 'getitem: index bound off by one again', 'module': 'core', 'only': ['core.Path.__getitem__'], 'expect': ['core.Path.__getitem__'],
